@@ -849,3 +849,32 @@ pub fn history_from_json(v: &Value) -> Option<(String, Vec<Op>)> {
 pub fn langid_of(l: &Locale) -> LangId {
     obs_li(&l.id)
 }
+
+impl Op {
+    /// Encoding understood by /verif/cfgprobe: kind[:x<hex>[,x<hex>...]]
+    pub fn to_probe(&self) -> String {
+        fn xs(v: &[&[u8]]) -> String {
+            v.iter().map(|b| format!("x{}", crate::mon::hex(b))).collect::<Vec<_>>().join(",")
+        }
+        let k = self.kind();
+        match self {
+            Op::SetLanguage(a) | Op::RemoveKeyword(a) | Op::SetAttribute(a) | Op::RemoveAttribute(a) | Op::SetTlang(a)
+            | Op::RemoveTfield(a) | Op::AddTag(a) | Op::RemoveTag(a) | Op::QKeyword(a) | Op::QHasAttribute(a)
+            | Op::QTfield(a) | Op::QHasTag(a) | Op::QHasVariant(a) => format!("{}:{}", k, xs(&[a])),
+            Op::SetScript(Some(a)) | Op::SetRegion(Some(a)) => format!("{}:{}", k, xs(&[a])),
+            Op::SetVariants(v) => {
+                if v.is_empty() {
+                    k.to_string()
+                } else {
+                    format!("{}:{}", k, xs(&v.iter().map(|b| b.as_slice()).collect::<Vec<_>>()))
+                }
+            }
+            Op::SetKeyword(a, v) | Op::SetTfield(a, v) => {
+                let mut all: Vec<&[u8]> = vec![a];
+                all.extend(v.iter().map(|b| b.as_slice()));
+                format!("{}:{}", k, xs(&all))
+            }
+            _ => k.to_string(),
+        }
+    }
+}
